@@ -51,6 +51,10 @@ def systematic():
         {"origin": "second-server-answers", "steps": [L("alice", "p1"), S(1, "down"), L("alice", "p1"), L("alice", "p3"), S(1, "err"), L("alice", "p1")]},
         {"origin": "expired-cache", "steps": [L("alice", "p1"), {"op": "expire", "user": "alice"}] + down + [L("alice", "p1")] + up + [L("alice", "p1")] + down + [L("alice", "p1")]},
     ]
+    H = {"op": "halflife", "user": "alice"}
+    out.append({"origin": "96h-from-the-confirmed-login", "steps": [L("alice", "p1")] + down + [H, L("alice", "p1"), H, L("alice", "p1"), L("alice", "p1")] + up + [L("alice", "p1")]})
+    out.append({"origin": "offline-logins-do-not-extend", "steps": [L("alice", "p1"), H] + down + [L("alice", "p1"), L("alice", "p1"), H, L("alice", "p1")] + up +
+                [L("alice", "p1"), H] + down + [L("alice", "p1"), H, L("alice", "p1")]})
     for how in ("swapsubject", "alterhash", "extendcolumn", "resign"):
         out.append({"origin": "tamper-" + how, "steps": [L("alice", "p1"), L("bob", "p1"), {"op": "expire", "user": "alice"} if how == "extendcolumn" else L("bob", "p1"),
                                                         {"op": "tamper", "user": "alice", "how": how}] + down + [L("alice", "p1"), L("alice", "p3"), L("bob", "p1")]})
@@ -64,7 +68,7 @@ def run(tier, seed, work, replay):
     E.tlc_mc(work, "KMPassword", "MC_KMPassword.cfg", cov)
     if tier == "thorough":
         E.tlc_mc(work, "KMPassword", "MC_KMPassword_thorough.cfg", cov, timeout=1800)
-    for neg in ("Neg_KMPassword_CacheDecidesOnReject.cfg", "Neg_KMPassword_IgnoresExpiry.cfg"):
+    for neg in ("Neg_KMPassword_CacheDecidesOnReject.cfg", "Neg_KMPassword_IgnoresExpiry.cfg", "Neg_KMPassword_OfflineRefreshes.cfg"):
         r = E.tlc(work, "KMPassword", neg, timeout=300, tag=neg)
         if not r["violated"]:
             raise E.Inconclusive("negative control %s found no violation" % neg)
